@@ -42,6 +42,24 @@ def place_maxlen(subs, maxlen, pos):
 MAXLEN_POS = ['first', 'second', 'last', 'first', 'absent', 'last', 'second']
 
 
+def new_acceptor(ae, dul, max_len):
+    """An AssociationAcceptor built by its own __init__ (so that it has whatever attributes the class gives its
+    instances), with the provider replaced by the given stub and without the socketserver machinery."""
+    from pynetdicom2 import asceprovider, dulprovider
+    base = asceprovider.socketserver.StreamRequestHandler
+    saved = (dulprovider.DULServiceProvider, base.__init__)
+    if not hasattr(ae, 'get_file'):
+        ae.get_file = None
+    dulprovider.DULServiceProvider = lambda *a, **k: dul
+    base.__init__ = lambda self, *a, **k: None
+    try:
+        acc = asceprovider.AssociationAcceptor(None, ('127.0.0.1', 0), ae, max_len)
+    finally:
+        dulprovider.DULServiceProvider, base.__init__ = saved
+    acc.dul = dul
+    return acc
+
+
 def make_rq(proposals, peer_max, called='CALLED', calling='CALLING', extra_subs=(), maxlen_pos='first'):
     from pynetdicom2 import pdu, userdataitems
     items = [pdu.ApplicationContextItem('1.2.840.10008.3.1.1.1')]
